@@ -199,6 +199,10 @@ def run(ck):
     ok = bool(st) and bool(qi) and all(g.dominated(q, set(g.sites_of_nodes(st))) for q in g.sites_of_nodes(qi))
     ck.ob("C02-O6", sitestr(inst), ok, "the logger is published before the Qt handler is installed" if ok else "the Qt handler is installed before/without publishing the logger",
           key="Logger::installMessageHandler|publish-order")
+    ck.rule("C02-O9", "handler code keeps no mutable static state: every static variable written by code reachable from a handler's process/format/filter/send/attributes/flush is a cache of constants "
+                      "(the pipeline's lock covers the pipeline's own objects, not what all pipelines share)")
+    from rules.oth import shared_static_state
+    shared_static_state(ck, F, "C02-O9", "its own mutex")
     # a message that a sink hands on through a queued signal (SignalSink with a receiver in another thread) needs LogMessage to be a
     # registered meta-type whenever a logger exists - in synchronous mode the emitting thread is whichever thread logs
     ck.rule("C02-O8", "qRegisterMetaType<LogMessage> runs on every path of a constructor every logger goes through (OwnThreadHandler, SignalSink), not only when asynchronous mode is switched on")
